@@ -174,7 +174,7 @@ Definition build_from (E : env) (dir : bool) (o : option (list node)) : res rout
   | Some ns =>
       match rev ns with
       | [] => Ok RNoOp
-      | root :: _ => bind (build_loop E dir [] ns) (fun cx => getitem cx (ntype root))
+      | root :: _ => bind (build_loop E dir [] ns) (fun cx => getitem E cx (ntype root))
       end
   end.
 
